@@ -64,30 +64,34 @@ pub proof fn lemma_peval_pairs(c: Seq<FS>, c1: Seq<FS>, z: FS, w: FS, n: nat)
     ensures peval(c, z, 2 * n) == f_mul(peval(c1, f_mul(z, z), n), f_add(f_one(), f_mul(z, w)))
     decreases n
 {
-    broadcast use ring_axioms;
+    // (explicit axiom instances only: with the whole ring group broadcast this proof was unstable - it verified alone and hung after other queries)
     let zz = f_mul(z, z); let q = f_add(f_one(), f_mul(z, w));
-    if n == 0 { lemma_mul_zero(q); }
+    if n == 0 { lemma_mul_zero(q); ax_mul_comm(f_zero(), q); }
     else {
         let t = (n - 1) as nat; let ti = t as int;
         lemma_peval_pairs(c, c1, z, w, t);
         lemma_pow_sq(z, t);
-        let p0 = peval(c1, zz, t); let zt = f_pow(zz, t); let a = f_mul(c1[t as int], zt);
+        let p0 = peval(c1, zz, t); let zt = f_pow(zz, t); let a = f_mul(c1[t as int], zt); let zw = f_mul(z, w);
         assert(c[2 * ti] == c1[t as int] && c[2 * ti + 1] == f_mul(c1[t as int], w));
         assert(f_pow(z, 2 * t) == zt);
         assert(f_pow(z, (2 * t + 1) as nat) == f_mul(zt, z));
         assert(peval(c, z, (2 * t + 1) as nat) == f_add(peval(c, z, 2 * t), f_mul(c[2 * ti], f_pow(z, 2 * t))));
         assert(peval(c, z, 2 * n) == f_add(peval(c, z, (2 * t + 1) as nat), f_mul(c[2 * ti + 1], f_pow(z, (2 * t + 1) as nat))));
         // (c1[t] w)(zt z) = a (z w)
-        assert(f_mul(f_mul(c1[t as int], w), f_mul(zt, z)) == f_mul(a, f_mul(z, w))) by {
-            assert(f_mul(f_mul(c1[t as int], w), f_mul(zt, z)) == f_mul(c1[t as int], f_mul(w, f_mul(zt, z))));
-            assert(f_mul(w, f_mul(zt, z)) == f_mul(f_mul(zt, z), w));
-            assert(f_mul(f_mul(zt, z), w) == f_mul(zt, f_mul(z, w)));
-            assert(f_mul(c1[t as int], f_mul(zt, f_mul(z, w))) == f_mul(f_mul(c1[t as int], zt), f_mul(z, w)));
+        assert(f_mul(f_mul(c1[t as int], w), f_mul(zt, z)) == f_mul(a, zw)) by {
+            ax_mul_assoc(c1[t as int], w, f_mul(zt, z));        // (c w)(zt z) = c (w (zt z))
+            ax_mul_comm(w, f_mul(zt, z));                        // w (zt z) = (zt z) w
+            ax_mul_assoc(zt, z, w);                              // (zt z) w = zt (z w)
+            ax_mul_assoc(c1[t as int], zt, zw);                  // (c zt)(z w) = c (zt (z w))
         }
-        assert(f_mul(a, q) == f_add(a, f_mul(a, f_mul(z, w))));
+        // a q = a + a (z w)
+        ax_distrib(a, f_one(), zw); ax_mul_one(a);
+        // (p0 + a) q = p0 q + a q
+        ax_mul_comm(f_add(p0, a), q); ax_distrib(q, p0, a); ax_mul_comm(q, p0); ax_mul_comm(q, a);
         assert(peval(c1, zz, n) == f_add(p0, a));
-        assert(f_mul(f_add(p0, a), q) == f_add(f_mul(p0, q), f_mul(a, q))) by { assert(f_mul(f_add(p0, a), q) == f_mul(q, f_add(p0, a))); }
-        assert(peval(c, z, 2 * n) == f_add(f_add(f_mul(p0, q), a), f_mul(a, f_mul(z, w))));
+        // (p0 q + a) + a (z w) = p0 q + (a + a (z w))
+        ax_add_assoc(f_mul(p0, q), a, f_mul(a, zw));
+        assert(peval(c, z, 2 * n) == f_add(f_add(f_mul(p0, q), a), f_mul(a, zw)));
     }
 }
 pub proof fn lemma_last_bit(k: nat, t: int)
